@@ -7,9 +7,9 @@ WorkPacket = Tup(Int, Seq(Strat), Bool, names=["label", "strategies", "inferral"
 named_tuple("WorkPacket", WorkPacket)
 AL = {"Strat": Strat, "WorkPacket": WorkPacket}
 
-klass(F, "DefaultQueue",
-      fields={"inferral_strategies": Seq(Strat), "initial_strategies": Seq(Strat), "expansion_strats": Seq(Seq(Strat)),
-              "working": Deque(Int), "next_level": Counter(Int), "curr_level": Seq(Deque(Int)),
+klass(F, "CSSQueue", fields={"inferral_strategies": Seq(Strat), "initial_strategies": Seq(Strat), "expansion_strats": Seq(Seq(Strat))})
+klass(F, "DefaultQueue", bases=["CSSQueue"],
+      fields={"working": Deque(Int), "next_level": Counter(Int), "curr_level": Seq(Deque(Int)),
               "_inferral_expanded": Set(Int), "_initial_expanded": Set(Int), "ignore": Set(Int),
               "queue_sizes": List(Int), "staging": Deque(WorkPacket)},
       properties=["levels_completed"],
@@ -149,3 +149,25 @@ contract(F, "DefaultQueue.do_level", props=["C16"], aliases=AL,
          modifies=_NEXT_MODS,
          notes="hands out only packets of labels that are not ignored at that moment; a level that cannot start is an error, "
                "never a silent empty iteration")
+
+# ------------------------------------------------------------------ construction: the representation invariant is established
+if "StrategyPack" not in REG.classes:
+    klass("comb_spec_searcher/strategies/strategy_pack.py", "StrategyPack", fields={})
+REG.classes["StrategyPack"].fields.update({"inferral_strats": Seq(Strat), "initial_strats": Seq(Strat),
+                                           "expansion_strats": Seq(Seq(Strat))})
+_PACK_COPIED = ["self.inferral_strategies == pack.inferral_strats", "self.initial_strategies == pack.initial_strats",
+                "len(self.expansion_strats) == len(pack.expansion_strats)",
+                "forall(lambda i: implies(0 <= i and i < len(pack.expansion_strats), self.expansion_strats[i] == pack.expansion_strats[i]))"]
+contract(F, "CSSQueue.__init__", props=["C16"], aliases=AL, self_invariant=False,
+         params={"self": Obj("CSSQueue"), "pack": Obj("StrategyPack")}, ensures=_PACK_COPIED,
+         modifies=["self.inferral_strategies", "self.initial_strategies", "self.expansion_strats"],
+         notes="the three strategy groups of the pack, in the pack's order")
+contract(F, "DefaultQueue.__init__", props=["C16"], aliases=AL, self_invariant=False,
+         params={"self": Q, "pack": Obj("StrategyPack")},
+         ensures=["wf(self)"] + _PACK_COPIED + [
+             "len(self.working) == 0", "len(self.staging) == 0", "len(self.queue_sizes) == 0",
+             "forall(lambda y: not (y in self.next_level))", "forall(lambda y: not (y in self.ignore))",
+             "forall(lambda y: not (y in self._inferral_expanded))", "forall(lambda y: not (y in self._initial_expanded))",
+             "forall(lambda i: implies(0 <= i and i < len(self.curr_level), len(self.curr_level[i]) == 0))"],
+         modifies=["*self"],
+         notes="a new queue is empty everywhere, has one deque per expansion group plus one, and satisfies the invariant")
